@@ -51,7 +51,7 @@ PROPS = {
    'must_reach': ['heap_absorb', 'heap_destroy', 'use_delayed_spin'],
  },
  'C11': {
-   'families': [('c11_repeat', 2, ALL), ('c11_timed', 2, ALL), ('c09_exit', 1, ALL), ('c09_adopt_race', 1, ALL)],
+   'families': [('c11_repeat', 2, ALL), ('c11_timed', 2, ALL), ('c11_heapdelete', 2, ALL), ('c09_exit', 1, ALL), ('c09_adopt_race', 1, ALL)],
    'runs': {'quick': 720, 'thorough': 30000},
    'rule': 'non-trivial = the give-back oracle ran at quiescence after >= 3 repetitions; distinct = distinct event hash',
    'nontrivial': lambda r: sw(r, 'giveback_checked') > 0, 'distinct_by': 'event',
